@@ -14,24 +14,24 @@ Import ListNotations.
 Local Open Scope nat_scope.
 
 Section C07.
-  Context {T : Type} (ltb : T -> T -> bool) (zero : T) (round7 : T -> T) (smul : bool -> T -> T).
+  Context {T : Type} (ltb : T -> T -> bool) (zero : T) (roundp : nat -> T -> T) (smul : bool -> T -> T).
 
-  Notation exec := (exec ltb zero round7 smul).
-  Notation run := (run ltb zero round7 smul).
-  Notation evaluate_serial := (evaluate_serial ltb zero round7 smul).
+  Notation exec := (exec ltb zero roundp smul).
+  Notation run := (run ltb zero roundp smul).
+  Notation evaluate_serial := (evaluate_serial ltb zero roundp smul).
 
   (* steps of different designs commute on the observable abstraction (individuals by id equal; failed
      list, sync log and call log equal as multisets and equal per design; pending results equal) *)
   Theorem C07_steps_commute : forall (e : env T) ps a b, local_env e -> st_id a <> st_id b ->
     peq (exec e (exec e ps a) b) (exec e (exec e ps b) a).
-  Proof. exact (steps_commute T ltb zero round7 smul). Qed.
+  Proof. exact (steps_commute T ltb zero roundp smul). Qed.
 
   (* any family of step lists owned by pairwise distinct designs: every interleaving is observably the
      concatenation (the serial order), from every shared state *)
   Theorem C07_any_interleaving_equals_serial : forall (e : env T), local_env e ->
     forall ls tr, merge ls tr -> forall ids, owned ids ls -> NoDup ids ->
     forall ps, peq (run e tr ps) (run e (concat ls) ps).
-  Proof. exact (interleaving_serial T ltb zero round7 smul). Qed.
+  Proof. exact (interleaving_serial T ltb zero roundp smul). Qed.
 
   (* bridge to C05 / C06: the tasks' small steps in submission order are Model/Job.v's evaluate_serial *)
   Theorem C07_serial_steps_is_job_evaluate : forall (e : env T), local_env e -> forall batch heap0 st ps st',
@@ -39,7 +39,7 @@ Section C07.
     (forall id, In id batch -> nth_error (s_heap st) id = nth_error heap0 id) ->
     evaluate_serial e st batch = (st', Done) ->
     p_st (run e (concat (par_tasks e heap0 batch)) ps) = st'.
-  Proof. exact (serial_steps_is_job_evaluate T ltb zero round7 smul). Qed.
+  Proof. exact (serial_steps_is_job_evaluate T ltb zero roundp smul). Qed.
 
   (* the property: for every interleaving of the workers the final designs (vector, costs, signed costs,
      state, feasibility), problem.individuals, problem.failed (multiset), the store (per-design snapshot
@@ -55,7 +55,7 @@ Section C07.
     Permutation (s_store st_par) (s_store st') /\
     (forall id, calls_by id (s_calls st_par) = calls_by id (s_calls st')) /\
     Permutation (map (@strip T) (s_calls st_par)) (map (@strip T) (s_calls st')).
-  Proof. exact (parallel_equals_evaluate_serial T ltb zero round7 smul). Qed.
+  Proof. exact (parallel_equals_evaluate_serial T ltb zero roundp smul). Qed.
 
   (* the objective succeeds exactly once for every EMPTY design of the batch and is not called at all for any
      other design, under every interleaving *)
@@ -65,7 +65,7 @@ Section C07.
     forall id i, nth_error (s_heap st) id = Some i ->
       (istate i = Empty -> In id batch -> length (okc e id (s_calls (p_st (run e tr (lift st))))) = 1) /\
       (istate i <> Empty \/ ~ In id batch -> calls_by id (s_calls (p_st (run e tr (lift st)))) = []).
-  Proof. exact (objective_once T ltb zero round7 smul). Qed.
+  Proof. exact (objective_once T ltb zero roundp smul). Qed.
 
   (* with a store attached every evaluated design is persisted with its final data: the row of its id is
      the design as it is at the end, and that design is EVALUATED *)
@@ -75,7 +75,7 @@ Section C07.
     forall id i, In id batch -> nth_error (s_heap st) id = Some i -> istate i = Empty ->
     exists i', nth_error (s_heap (p_st (run e tr (lift st)))) id = Some i' /\
                row_of id (s_store (p_st (run e tr (lift st)))) = Some i' /\ istate i' = Evaluated.
-  Proof. exact (evaluated_design_persisted T ltb zero round7 smul). Qed.
+  Proof. exact (evaluated_design_persisted T ltb zero roundp smul). Qed.
 
   (* no torn records: the costs a design ends with are the objective's value for the vector it ends with,
      from a call made for this design in this run *)
@@ -86,7 +86,7 @@ Section C07.
     exists i' c costs, nth_error (s_heap (p_st (run e tr (lift st)))) id = Some i' /\
       In (strip c) (calls_by id (s_calls (p_st (run e tr (lift st))))) /\
       e_obj e c = Ok costs /\ c_vec c = ivec i' /\ icosts i' = costs /\ istate i' = Evaluated.
-  Proof. exact (parallel_costs_belong_to_vector T ltb zero round7 smul). Qed.
+  Proof. exact (parallel_costs_belong_to_vector T ltb zero roundp smul). Qed.
 End C07.
 
 Print Assumptions C07_steps_commute.
@@ -120,8 +120,8 @@ Definition ex_env : env Z :=
 Definition ex_smul (b : bool) (x : Z) : Z := if b then - x else x.
 
 Definition ex_heap : list (ind Z) :=
-  [fresh [1; 2]; fresh [3; 4]; {| ivec := [7; 7]; icosts := [0; 0]; isigned := Some ([0; 0], true); istate := Evaluated; ifeas := false |};
-   {| ivec := [9; 9]; icosts := []; isigned := None; istate := InProgress; ifeas := false |}; fresh [0; 6]].
+  [fresh [1; 2]; fresh [3; 4]; {| ivec := [7; 7]; icosts := [0; 0]; isigned := Some ([0; 0], true); istate := Evaluated; ifeas := false; iprec := 7%nat |};
+   {| ivec := [9; 9]; icosts := []; isigned := None; istate := InProgress; ifeas := false; iprec := 7%nat |}; fresh [0; 6]].
 
 Definition ex_st : state Z := {| s_heap := ex_heap; s_pop := [0; 1; 2; 3; 4]%nat; s_failed := []; s_store := []; s_calls := [] |}.
 Definition ex_batch : list nat := [0; 1; 2; 3; 4]%nat.
@@ -153,7 +153,7 @@ Qed.
 
 Example C07_ex_hypotheses_met :
   local_env ex_env /\ NoDup ex_batch /\ s_calls ex_st = [] /\
-  snd (evaluate_serial Z.ltb 0 (fun x => x) ex_smul ex_env ex_st ex_batch) = Done /\
+  snd (evaluate_serial Z.ltb 0 (fun _ x => x) ex_smul ex_env ex_st ex_batch) = Done /\
   length (concat (par_tasks ex_env ex_heap ex_batch)) = 16%nat.
 Proof.
   split; [exact ex_local|]. split; [repeat constructor; cbn; intuition discriminate|].
@@ -161,8 +161,8 @@ Proof.
 Qed.
 
 Example C07_ex_interleaved_run :
-  let st_par := p_st (run Z.ltb 0 (fun x => x) ex_smul ex_env ex_trace (lift ex_st)) in
-  let st_ser := fst (evaluate_serial Z.ltb 0 (fun x => x) ex_smul ex_env ex_st ex_batch) in
+  let st_par := p_st (run Z.ltb 0 (fun _ x => x) ex_smul ex_env ex_trace (lift ex_st)) in
+  let st_ser := fst (evaluate_serial Z.ltb 0 (fun _ x => x) ex_smul ex_env ex_st ex_batch) in
   s_heap st_par = s_heap st_ser /\
   map (@istate Z) (s_heap st_par) = [Evaluated; Evaluated; Evaluated; InProgress; Evaluated] /\
   map (@icosts Z) (s_heap st_par) = [[3; 2]; [6; 5]; [0; 0]; []; [6; 0]] /\
@@ -185,8 +185,8 @@ Example C07_ex_locality_needed :
   let t0 := task_steps ex_env_global heap 0 in
   let t1 := task_steps ex_env_global heap 1 in
   merge [t0; t1] (t0 ++ t1) /\ merge [t0; t1] (t1 ++ t0) /\
-  s_heap (p_st (run Z.ltb 0 (fun x => x) ex_smul ex_env_global (t0 ++ t1) (lift st))) <>
-  s_heap (p_st (run Z.ltb 0 (fun x => x) ex_smul ex_env_global (t1 ++ t0) (lift st))).
+  s_heap (p_st (run Z.ltb 0 (fun _ x => x) ex_smul ex_env_global (t0 ++ t1) (lift st))) <>
+  s_heap (p_st (run Z.ltb 0 (fun _ x => x) ex_smul ex_env_global (t1 ++ t0) (lift st))).
 Proof.
   vm_compute. split; [|split].
   - repeat pick_task. cbn [app]. apply merge_done. repeat constructor.
